@@ -1943,6 +1943,22 @@ class Evaluator:
             return _Iter(list(enumerate(self.iterate(args[0], node), *args[1:])))
         if name == "reversed":
             return _Iter(list(reversed(self.iterate(args[0], node))))
+        if name == "sorted" and kwargs.get("key") is not None and len(args) == 1:
+            # sorted(xs, key=f): decided when every key is a number / string; ties keep the order of `xs`, so ties among the
+            # elements of a *set* make the result depend on the set's iteration order (the hash seed)
+            src = args[0]
+            from_set = isinstance(src, (set, frozenset))
+            n_ev = len(self.events)
+            items = self.iterate(src, node)
+            if from_set:
+                del self.events[n_ev:]  # iterating for a sort is not an order-sensitive use by itself
+            keys = [self.call(kwargs["key"], [x], {}, node) for x in items]
+            if not all(isinstance(k, (int, float, str)) and not isinstance(k, bool) for k in keys) or len({type(k) is str for k in keys}) > 1:
+                return TOP
+            if from_set and len(set(keys)) < len(keys):
+                self.events.append(("set-order-consumed", "sorted(<set>, key=...) with equal keys: ties keep the set's iteration order", node))
+            order = sorted(range(len(items)), key=lambda i: keys[i], reverse=bool(kwargs.get("reverse", False)))
+            return [items[i] for i in order]
         if name == "sorted":
             items = self.iterate(args[0], node)
             if any(isinstance(x, (Sym, Text)) for x in items) and len(items) > 1:
